@@ -232,11 +232,11 @@ def run(tier, seed, rng):
     # depth 2: every pair of operators, nested on either side
     for op1 in INT_BOPS:
         for op2 in INT_BOPS:
-            for _ in range(1 if tier == 'quick' else 4):
+            for _ in range(1 if tier == 'quick' else 8):
                 l1, l2, l3 = (rng.choice(leaves) for _ in range(3))
                 exprs.append(('bin', op1, ('bin', op2, l1, l2), l3))
                 exprs.append(('bin', op1, l3, ('bin', op2, l1, l2)))
-    for _ in range(600 if tier == 'quick' else 6000):
+    for _ in range(600 if tier == 'quick' else 40000):
         exprs.append(gen_int(rng, rng.randint(2, 5), leaves))
     exprs = [e for e in exprs if deferrable(e)]
     envs = [{'f0': 3, 'f1': 5, 'f2': {'x': b'ab'.hex()}, 'f3': [4, 0]}, {'f0': 0, 'f1': -2, 'f2': {'x': ''}, 'f3': []},
